@@ -212,7 +212,11 @@ func NewMinimax(cfg MinimaxConfig) *MinimaxAI {
 		if mem == 0 {
 			mem = defaultTableMem
 		}
-		m.table = make([]tableEntry, mem/int64(reflect.TypeOf(tableEntry{}).Size()))
+		// a budget below one entry means no table (ttGet and
+		// ttPut index modulo the length)
+		if n := mem / int64(reflect.TypeOf(tableEntry{}).Size()); n > 0 {
+			m.table = make([]tableEntry, n)
+		}
 	}
 
 	for i := range m.stack {
